@@ -167,7 +167,7 @@ def _locate(fns, line):
     return None, None
 
 
-def run_unit(unit, repo, scratch, features=None, rlimit=30, multiple_errors=4, tag=None, verus_args=(), split_workers=16):
+def run_unit(unit, repo, scratch, features=None, rlimit=30, multiple_errors=4, tag=None, verus_args=(), split_workers=16, always_split=()):
     """-> dict(unit, obligations=[...], failures=[...], meta, times)"""
     name = unit if not tag else unit + '@' + tag
     base = os.path.join(scratch, name.replace('@', '_').replace(',', '_'))
@@ -182,6 +182,12 @@ def run_unit(unit, repo, scratch, features=None, rlimit=30, multiple_errors=4, t
                 if a.get('sub'):
                     presplit[(fname, k)] = len(a['sub'])
         focus0 = dict(inner={key: set() for key in presplit}) if presplit else None
+        # functions whose joint query is known to exceed the resource limit on the unchanged tree (plan: always_split) are not
+        # tried as a whole: the first run keeps the function with every arm pruned, the arms follow one by one
+        for fname in always_split:
+            if fname in meta0['functions'] and meta0['functions'][fname]['arms']:
+                focus0 = focus0 or {}
+                focus0[fname] = set()
         w = _verus_once(unit, repo, out_rs, scratch, features, rlimit, multiple_errors, focus=focus0, extra=verus_args)
     except LostAnchor as e:
         raise Undecided('lost-anchor in unit %s: %s' % (name, e))
@@ -228,6 +234,9 @@ def run_unit(unit, repo, scratch, features=None, rlimit=30, multiple_errors=4, t
                                   for t in sp['text'])
         if kind in ('post', 'invariant') and (re.search(r'\bp?steps\b', clause) or re.match(r'\s*(res is Ok ==> )?(ssize|ssize_seq|cost)\(', clause)):
             kind = 'cost'
+        # the progress clause of a parser method (a successful call consumes a token): the measure of the parser's loops and recursion
+        if kind == 'post' and re.match(r'\s*res is Ok ==> final\(self\)\.stream\(\)\.len\(\) < old\(self\)\.stream\(\)\.len\(\)\s*$', clause):
+            kind = 'progress'
         failures.append(dict(fn=fname, arm=arm, kind=kind, line=line, text=text, message=d.get('message'), clause=clause[:300],
                              rendered=d.get('rendered', '')[:1500]))
 
@@ -244,10 +253,13 @@ def run_unit(unit, repo, scratch, features=None, rlimit=30, multiple_errors=4, t
             split_fns.add(fname)
         else:
             undecided.append('%s @ generated line %d (%s)' % (msg, line, fname or 'spec side'))
+    for fname in always_split:
+        if fname in fns and fns[fname]['arms']:
+            split_fns.add(fname)
     for kind, d in w['verif']:
         line, _ = _diag_line(d)
         fname, _arm = _locate(fns, line)
-        if fname in split_fns:
+        if fname in split_fns and fname not in always_split:
             continue
         absorb(kind, d, fns)
 
@@ -264,7 +276,7 @@ def run_unit(unit, repo, scratch, features=None, rlimit=30, multiple_errors=4, t
                     if (fname, k) in presplit:
                         fo['inner'] = {(fname, k): set()}
                     jobs.append((fname, k, arm, o, ex.submit(
-                        _verus_once, unit, repo, o, scratch, features, rlimit, 2, fo,
+                        _verus_once, unit, repo, o, scratch, features, rlimit, 6, fo,
                         ['--verify-root', '--verify-function', VERIFY_FN_ALIAS.get(fname, fname)])))
             for (fname, k), nsub in sorted(presplit.items()):
                 for j in range(nsub):
@@ -272,7 +284,7 @@ def run_unit(unit, repo, scratch, features=None, rlimit=30, multiple_errors=4, t
                     fo = {fname: {k}, 'inner': {(fname, k): {j}}}
                     arm = dict(pat=fns[fname]['arms'][k]['pat'] + ' / ' + fns[fname]['arms'][k]['sub'][j]['pat'])
                     jobs.append((fname, k, arm, o, ex.submit(
-                        _verus_once, unit, repo, o, scratch, features, rlimit, 2, fo,
+                        _verus_once, unit, repo, o, scratch, features, rlimit, 6, fo,
                         ['--verify-root', '--verify-function', VERIFY_FN_ALIAS.get(fname, fname)])))
             for fname, k, arm, o, fut in jobs:
                 sw = fut.result()
